@@ -94,6 +94,7 @@ fn c09_written_layout_empty() { layout_case(Race::Hrothgar, Tribe::Lost, Gender:
 /// parsing: each appearance field / timestamp comes from its documented position
 #[kani::proof]
 #[kani::unwind(200)]
+#[kani::stub(core::str::validations::run_utf8_validation, crate::verif_support::refs::ascii_utf8_validation)]
 fn c09_parse_field_positions() {
     let mut buf = [0u8; 212];
     let b: [u8; 24] = kani::any();
